@@ -40,10 +40,11 @@ CONSTANTS Carry,        \* "reset" | "coded" | "keep" : which model the invarian
 Users2 == {"alice", "bob"}
 
 \* authorized_keys files a user may have
-CaP == [Entry(TRUE, "ca", <<"no-pty">>) EXCEPT !.princ = <<L("ops")>>, !.cmd = "kc"]
+CaP == [Entry(TRUE, "ca", <<"no-pty">>) EXCEPT !.princ = <<L("ops")>>, !.cmd = "kp"]
 CaO == [Entry(TRUE, "ca", <<"no-agent-forwarding">>) EXCEPT !.open = {Dest("h1", "80")},
                                                             !.env = "kv"]
-KeyC == [Entry(FALSE, "user", <<"no-X11-forwarding">>) EXCEPT !.cmd = "kc"]
+KeyC == [Entry(FALSE, "user", <<"no-X11-forwarding">>) EXCEPT !.cmd = "kc",
+                                                            !.open = {Dest("h2", "22")}]
 KeyP == Entry(FALSE, "user", <<>>)
 FileNames == {"none", "caP", "ca", "key", "keyplain", "caPkey"}
 FileOf(n) == CASE n = "none" -> <<>>
@@ -166,35 +167,33 @@ Rows3 == {Cfg(fa, fb, cb[1], cb[2], <<s1, s2, s3>>) :
              s2 \in IF Thorough2 THEN Before ELSE {s \in Before : s.cred \in {"-", "key", "cOps"}},
              s3 \in IF Thorough2 THEN Last ELSE {s \in Last : s.cred \in {"-", "key", "cOps"}}}
 
-VARIABLE h
-HInit == h \in Rows2 \cup Rows3 /\ c = StepCred(h, h.steps[Len(h.steps)])
-HNext == UNCHANGED <<h, c>>
-HSpec == HInit /\ [][HNext]_<<h, c>>
+\* h = the row; c = the deciding request as a row of Restrict.tla (so that module's
+\* operators can be applied to it); r = the outcomes, computed once per row
+VARIABLES h, r
+HInit == /\ h \in Rows2 \cup Rows3
+         /\ c = StepCred(h, h.steps[Len(h.steps)])
+         /\ r = [alone |-> Alone(h), out |-> Out(h, Carry), coded |-> Out(h, "coded"),
+                 keep |-> Out(h, "keep")]
+HNext == UNCHANGED <<h, c, r>>
+HSpec == HInit /\ [][HNext]_<<h, c, r>>
 
 ----------------------------------------------------------------------------
 \* properties
 \* nothing carries over: replies, admitted user and every restriction are those of the
 \* deciding request alone
-NoCarryOver == Out(h, Carry) = Alone(h)
+NoCarryOver == r.out = r.alone
 \* ... the part that concerns who gets in
-VerdictHistoryIndependent ==
-    LET o == Out(h, Carry)
-        a == Alone(h)
-    IN o.replies = a.replies /\ o.acc = a.acc /\ o.user = a.user
+Verdict3(o) == <<o.replies, o.acc, o.user>>
+VerdictHistoryIndependent == Verdict3(r.out) = Verdict3(r.alone)
 \* ... earlier requests never widen what the admitted credential allows
-NoLoosening ==
-    LET o == Out(h, Carry)
-        a == Alone(h)
-    IN o.ops \subseteq a.ops /\ o.dests \subseteq a.dests
+NoLoosening == r.out.ops \subseteq r.alone.ops /\ r.out.dests \subseteq r.alone.dests
 \* ... the forced command of the admitted credential is the one that runs
 ForcedCommandOfAccepted ==
-    LET o == Out(h, Carry)
-        a == Alone(h)
-    IN \A t \in a.started : (<<t[1], t[2]>> # <<t[3], t[4]>>) => t \in o.started
+    \A t \in r.alone.started : (<<t[1], t[2]>> # <<t[3], t[4]>>) => t \in r.out.started
 
-\* emission: rows where history matters in some model, rows that admit somebody after a
-\* request of another user or credential left something behind, and a thinned rest
-Matters == Out(h, "coded") # Alone(h) \/ Out(h, "keep") # Alone(h)
+\* emission: every row where the WRONG variant would let somebody in, every row where a
+\* stale certificate's forced command would replace the admitted key's, and a thinned
+\* selection of the rows where history shows in the model as coded / not at all
 Thin(n) ==
     LET w(st) == (IF st.user = "alice" THEN 1 ELSE 2) +
                  (CASE st.kind = "query" -> 0 [] st.kind = "badsig" -> 3 [] st.kind = "signed" -> 5
@@ -206,19 +205,21 @@ Thin(n) ==
         sum == w(h.steps[1]) * 3 + w(h.steps[2]) * 5 + w(h.steps[Len(h.steps)]) * 7 +
                f(h.fa) * 11 + f(h.fb) * 13 + (IF h.cbkey THEN 17 ELSE 0) + (IF h.cbca THEN 19 ELSE 0)
     IN sum % n = 0
-Verdict3(o) == <<o.replies, o.acc, o.user>>
-KeepMatters == Verdict3(Out(h, "keep")) # Verdict3(Alone(h))
-ForceMatters == \E t \in Alone(h).started : <<t[1], t[2]>> # <<t[3], t[4]>> /\ t \notin Out(h, "coded").started
-Class == IF KeepMatters THEN "keep" ELSE IF ForceMatters THEN "force" ELSE IF Matters THEN "stale"
-         ELSE "plain"
+Class ==
+    IF Verdict3(r.keep) # Verdict3(r.alone) THEN "keep"
+    ELSE IF \E t \in r.alone.started : <<t[1], t[2]>> # <<t[3], t[4]>> /\ t \notin r.coded.started
+         THEN "force"
+    ELSE IF r.coded # r.alone \/ r.keep # r.alone THEN "stale"
+    ELSE "plain"
 Emitted ==
     LET two == Len(h.steps) = 2
     IN CASE Class = "keep" -> Thin(IF Thorough2 THEN 1 ELSE IF two THEN 2 ELSE 5)
          [] Class = "force" -> Thin(IF Thorough2 THEN 1 ELSE IF two THEN 3 ELSE 7)
-         [] Class = "stale" -> Thin(IF Thorough2 THEN 3 ELSE IF two THEN 9 ELSE 29)
-         [] OTHER -> Thin(IF Thorough2 THEN 5 ELSE IF two THEN 13 ELSE 31)
+         [] Class = "stale" -> Thin(IF Thorough2 THEN 7 ELSE IF two THEN 9 ELSE 29)
+         [] OTHER -> Thin(IF Thorough2 THEN 23 ELSE IF two THEN 13 ELSE 31)
 EmitHist ==
-    Emitted => PrintT(ToString(<<"HROW", h, [class |-> Class, alone |-> Alone(h), coded |-> Out(h, "coded")]>>))
+    Emitted => PrintT(ToString(<<"HROW", h, [class |-> Class, alone |-> r.alone,
+                                             coded |-> r.coded]>>))
 
 \* the pools, printed once
 ASSUME PrintT(ToString(<<"POOL", [f \in FileNames |-> FileOf(f)], [n \in CredNames |-> CertOf(n)]>>))
